@@ -312,11 +312,14 @@ class Driver:
 
     BATCH_BYTES = 48 * 1024
 
-    def __init__(self, path, scratch, wrapper=None, env=None):
+    def __init__(self, path, scratch, wrapper=None, env=None, cmd=None, cwd=None, stderr_path=None):
         self.path = path
         self.scratch = scratch
         self.wrapper = wrapper or []
         self.env = env
+        self.cmd = cmd              # full command line replacing wrapper + [path, "serve"] (Miri)
+        self.cwd = cwd
+        self.stderr_path = stderr_path
         self.proc = None
         self.seq = 0
         self.executions = 0
@@ -327,8 +330,11 @@ class Driver:
         env = dict(self.env if self.env is not None else os.environ)
         env.update(FIXED_ENV)
         env.pop("JAWK_VF_MISSING", None)
-        self.proc = subprocess.Popen(self.wrapper + [self.path, "serve"], stdin=subprocess.PIPE,
-                                     stdout=subprocess.PIPE, stderr=subprocess.DEVNULL, env=env)
+        err = open(self.stderr_path, "ab") if self.stderr_path else subprocess.DEVNULL
+        self.proc = subprocess.Popen(self.cmd or (self.wrapper + [self.path, "serve"]), stdin=subprocess.PIPE,
+                                     stdout=subprocess.PIPE, stderr=err, env=env, cwd=self.cwd)
+        if self.stderr_path:
+            err.close()
 
     def close(self):
         if self.proc is not None:
@@ -430,7 +436,7 @@ class Driver:
     def run_isolated(self, case, watchdog_ms=60000):
         """Re-run one case alone in a fresh driver with a generous budget."""
         self.isolated_reruns += 1
-        d = Driver(self.path, self.scratch + "-iso", self.wrapper, self.env)
+        d = Driver(self.path, self.scratch + "-iso", self.wrapper, self.env, self.cmd, self.cwd, self.stderr_path)
         old = case.watchdog_ms
         case.watchdog_ms = watchdog_ms
         try:
